@@ -34,13 +34,24 @@ Definition tainted_by (f : nat) : list nat :=
   end.
 Definition tainted_attrs : list nat := Eval vm_compute in (dedup (flat_map tainted_by (seq 0 (List.length names)))).
 
+(* For the ndarray subclasses of the package (Quaternion, QuaternionArray, DCM) the object IS its data: every array
+   attribute of self counts, so a query method that rewrites self.array / self.A in place is flagged ("query method
+   mutates the object's own array state", which also breaks repeatability on the same object). *)
 Definition counted (f k : nat) : bool :=
   Nat.ltb k (nthd n_explicit f 0) ||
-  existsb (fun '(p, at_) => Nat.eqb p k && memb at_ tainted_attrs) (nthd attr_params f []).
+  existsb (fun '(p, at_) => Nat.eqb p k && (memb at_ tainted_attrs || nthd array_class f false)) (nthd attr_params f []).
 
 (* the caller arrays callable f may modify; None: the analysis gave up (treated as "may modify") *)
 Definition mutated (f : nat) : option (list nat) := option_map (fun sm => filter (counted f) (s_mut sm)) (summ_of f).
-Definition is_mutator (f : nat) : bool := match mutated f with Some [] => false | _ => true end.
+(* a constructor of a class with documented in-place operations must not hand out an object that may share memory
+   with one of its data parameters: the in-place operation would then rewrite the caller's array *)
+Definition keeps_caller_data (f : nat) : bool :=
+  nthd ctor_required f false &&
+  match summ_of f with
+  | Some sm => existsb (fun k => Nat.leb 1 k && Nat.ltb k (nthd n_explicit f 0)) (s_ret sm)
+  | None => true
+  end.
+Definition is_mutator (f : nat) : bool := match mutated f with Some [] => keeps_caller_data f | _ => true end.
 Definition reads_global (f : nat) : bool := match summ_of f with Some sm => match s_glob sm with [] => false | _ => true end | None => true end.
 
 Definition all_ids := seq 0 (List.length names).
